@@ -366,7 +366,11 @@ Definition sbin (o : binop) (a b : sty) : sres :=
     | BLt | BGt | BLe | BGe =>
         if is_any a || is_any b then SOk TB
         else match a, b with TI, TI | TS, TS => SOk TB | _, _ => SErr end
-    | BIn => match b with TL | TAny => SOk TB | _ => SErr end
+    | BIn => match b with
+             | TL | TAny => SOk TB
+             | TS => if is_any a then SOk TB else SErr     (* dynamic left operand: accepted by the checker, fails when evaluated *)
+             | _ => SErr
+             end
     | BAdd => match a, b with
               | TI, TI => SOk TI | TS, TS => SOk TS
               | TAny, (TI | TS | TAny) | (TI | TS), TAny => SOk TAny
